@@ -273,4 +273,55 @@ theorem trace_split (x : Ctx) (cfg2 : C02.Cfg) : ∀ (evs : List Ev) (s : St) (p
         obtain ⟨pre, r, post, h1, h2, h3⟩ := ih _ pre'' post' t op h
         exact ⟨.req t0 r0 :: pre, r, post, by simp [h1], by simp [trace, opOf, h2, hq], by rw [runEv_cons]; exact h3⟩
 
+/-! ### what a 200 of the composed token endpoint established -/
+
+theorem isOk_unit {r : Res Unit} (h : r.isOk = true) : r = .ok () := by
+  cases r with
+  | ok u => rfl
+  | err e => cases h
+  | panic e => cases h
+
+theorem accepts_iff (x : Ctx) (rw : C11.World) (vp : C01.Pres) :
+    accepts x rw vp = true ↔ C01.verifyVP x.cfg1 x.P (x.env rw) true true none vp = .ok () := by
+  unfold accepts
+  constructor
+  · exact isOk_unit
+  · intro h; rw [h]; rfl
+
+theorem fieldsOf_ok {x : Ctx} {rw : C11.World} {vps : List C01.Pres} {sub : List C12.Mapping} {k : Nat} {vals : C12.Values}
+    (h : fieldsOf x rw vps sub k = .ok vals) :
+    ∃ m cm, C12.validate x.cfg12 x.re x.decode (x.g.pdOf k) (envelopeOf x rw vps) sub = .ok m ∧
+      C12.resolve x.cfg12 x.decode (x.g.envJ vps) [] sub = .ok cm ∧
+      C12.resolveFields x.cfg12 x.re (x.g.pdOf k) [] cm = .ok vals := by
+  unfold fieldsOf at h
+  split at h
+  · rename_i m hm
+    split at h
+    · rename_i cm hcm
+      exact ⟨m, cm, hm, hcm, h⟩
+    · cases h
+    · cases h
+  · cases h
+  · cases h
+
+/-- what the composed request established when C02 answers 200 -/
+def Established (x : Ctx) (cfg2 : C02.Cfg) (rw : C11.World) (r : Req) (claims : C02.Claims) : Prop :=
+  (∀ p ∈ r.vps, C01.verifyVP x.cfg1 x.P (x.env rw) true true none p.1 = .ok ()) ∧
+  ∃ defs d m cm vals, cfg2.definitions r.wire.scope = some defs ∧ C02.findDef defs r.wire.subDefId = some d ∧
+    C12.validate x.cfg12 x.re x.decode (x.g.pdOf d.key) (envelopeOf x rw r.pres) r.sub = .ok m ∧
+    C12.resolve x.cfg12 x.decode (x.g.envJ r.pres) [] r.sub = .ok cm ∧
+    C12.resolveFields x.cfg12 x.re (x.g.pdOf d.key) [] cm = .ok vals ∧
+    claims = x.g.render vals
+
+theorem issue_established (x : Ctx) (cfg2 : C02.Cfg) (rw : C11.World) (w w' : C02.World) (now : Nat) (r : Req) (resp : C02.TokenResponse)
+    (hchk : cfg2.emptyVpChecked = true) (httl : cfg2.nonceTtl ≠ 0) (hdid : ∀ u, x.base.didOfURL u ≠ some "")
+    (h : C02.issueS2S cfg2 w now (s2sOf x rw r) = (w', .ok resp)) :
+    ∃ rec : C02.TokenRec, Established x cfg2 rw r rec.claims ∧ resp.token = C02.tokName w.nextTok ∧ w'.nextTok = w.nextTok + 1 ∧
+      w'.tokens = w.tokens.put now cfg2.tokenTtl (C02.tokName w.nextTok) rec ∧ rec.issuedAt = now ∧
+      rec.expiration = now + cfg2.tokenValidity := by
+  obtain ⟨hacc, defs, d, vals, dpop, hd, hf, hfo, htok, hnext, hrec⟩ := issue_ok x cfg2 rw w w' now r resp hchk httl hdid h
+  obtain ⟨m, cm, hm, hcm, hv⟩ := fieldsOf_ok hfo
+  exact ⟨_, ⟨fun p hp => (accepts_iff x rw p.1).mp (hacc p hp), defs, d, m, cm, vals, hd, hf, hm, hcm, hv, rfl⟩, htok, hnext, hrec, rfl, rfl⟩
+
+
 end Nuts.Compose.Cred
